@@ -14,14 +14,14 @@ import (
 
 // ---- several read paths, one after another, on ONE handle -----------------------------------------------------
 //
-// An application builds a chain once (h := db.Model(&Row{}).Where(..).Order(..).Limit(..)) and reads it more than
-// once: a Row() to peek, Count for the pager, Find for the page, Rows to stream. The read paths that add nothing of
-// their own to a chain (Row, Rows, Find into a slice, Find into maps, Scan, Count - which restores what it changes)
-// are run in a random sequence on the handle; the sequence ends with any read path, also one that adds its own
-// clauses (Pluck, First / Last / Take, FindInBatches), which is why those come last only. Every step reports what
-// the same step reports on a handle of its own: the rows of the reference.
+// An application builds a chain once and makes a handle of it that may be used again
+// (h := db.Model(&Row{}).Where(..).Order(..).Limit(..).Session(&gorm.Session{}), or WithContext / Debug of the chain)
+// and reads it more than once: a Row() to peek, Count for the pager, Find for the page, Rows to stream, Pluck,
+// First / Last / Take, FindInBatches. 2..5 read paths are run in a random sequence on the handle; every step
+// reports what the same step reports on a handle of its own: the rows of the reference.
 //
-// The handle is the chain value itself, a Session(&gorm.Session{}) of it, or WithContext of it.
+// A chain value itself (no Session / WithContext behind it) executed more than once is documented misuse and is
+// not generated.
 
 // rop is one read path, run on a given handle; problems go to k.problems (collected by the caller).
 type rop struct {
@@ -282,16 +282,13 @@ func (k *checker) reuseOps(cc chain, want, matching []pred.Row) (clean, last []r
 	return clean, last
 }
 
-var reuseKinds = []string{"value", "value", "session", "ctx"}
+// reuseKinds: the ways an application makes a handle that may be used again from a chain.
+var reuseKinds = []string{"session", "ctx", "debug", "session-of-session"}
 
 func (k *checker) reused(want, matching []pred.Row) {
 	r := k.r
 	kind := reuseKinds[r.Intn(len(reuseKinds))]
 	cc := k.cc
-	if kind == "value" {
-		// re-executing a chain value that carries Scopes is not fixed by the statement
-		cc = cc.plain()
-	}
 	mk := func() *gorm.DB {
 		h := cc.build(H.DB.Session(&gorm.Session{}).Model(&pred.Row{}))
 		switch kind {
@@ -299,6 +296,10 @@ func (k *checker) reused(want, matching []pred.Row) {
 			h = h.Session(&gorm.Session{})
 		case "ctx":
 			h = h.WithContext(context.Background())
+		case "debug":
+			h = h.Debug()
+		case "session-of-session":
+			h = h.Session(&gorm.Session{}).Session(&gorm.Session{})
 		}
 		return h
 	}
@@ -308,16 +309,23 @@ func (k *checker) reused(want, matching []pred.Row) {
 		what += ".Session(&gorm.Session{})"
 	case "ctx":
 		what += ".WithContext(ctx)"
+	case "debug":
+		what += ".Debug()"
+	case "session-of-session":
+		what += ".Session(&gorm.Session{}).Session(&gorm.Session{})"
 	}
 	clean, last := k.reuseOps(cc, want, matching)
-	var ops []rop
-	for n := r.Range(1, 4); n > 0; n-- {
-		ops = append(ops, clean[r.Intn(len(clean))])
-	}
+	// a reusable handle gives every finisher a statement of its own: any read path at any position
 	all := append(append([]rop(nil), clean...), last...)
-	ops = append(ops, all[r.Intn(len(all))])
+	var ops []rop
+	for n := r.Range(2, 5); n > 0; n-- {
+		if r.Chance(2, 3) {
+			ops = append(ops, clean[r.Intn(len(clean))])
+		} else {
+			ops = append(ops, all[r.Intn(len(all))])
+		}
+	}
 
-	// the comparisons of this block use the order of cc (a plain copy has the same order)
 	saved := k.cc
 	k.cc = cc
 	defer func() { k.cc = saved }()
@@ -335,26 +343,7 @@ func (k *checker) reused(want, matching []pred.Row) {
 		msg := fmt.Sprintf("%s; %s: the last step: %s", what, strings.Join(seq, "; "), strings.Join(probs, " | "))
 		// the same step on a handle of its own
 		alone := k.collect(func() { op.run(mk()) })
-		// the same sequence without the reads into the smaller struct
-		var rest []rop
-		for _, o := range ops[:i] {
-			if o.name != smallFind {
-				rest = append(rest, o)
-			}
-		}
-		afterSmall := false
-		if len(rest) < i && len(alone) == 0 {
-			h2 := mk()
-			for _, o := range rest {
-				k.collect(func() { o.run(h2) })
-			}
-			afterSmall = len(k.collect(func() { op.run(h2) })) == 0
-		}
 		switch {
-		case afterSmall:
-			k.afterSmall = append(k.afterSmall, msg+" [the same steps without the Find into the two-column struct agree with the reference]")
-		case i > 0 && len(alone) == 0 && strings.HasPrefix(op.name, "h.Pluck(") && strings.HasPrefix(probs[0], panicked):
-			k.pluckPanics = append(k.pluckPanics, msg+" [Pluck as the first step on a handle built the same way agrees with the reference]")
 		case i > 0 && len(alone) == 0:
 			k.reusedHandle = append(k.reusedHandle, msg+" [the same step as the first one on a handle built the same way agrees with the reference]")
 		case strings.HasPrefix(op.name, "h.Row()"):
